@@ -36,10 +36,13 @@ TRUSTED = [
     'the parameter is discharged with the C05/C17 path model (Model/MatchReal.lean, modelled not verified, tied by the streams '
     'match-real and match-xspec): FlagFree for every path, Lawful up to simulation for paths without position tests; '
     'positional predicates are covered by the model and the correspondence, by no tree-rewrite theorem',
-    'the XPath reading of a match path is proved for GenericStrategy (C05 pattern_matches_eq_xp) and SingleStepStrategy (C17 '
-    'single_eq_generic); for SimplePathStrategy in pattern mode it is tied by match-xspec and the rref oracle only',
-    'the location form of the specification (xpForest/patternSel, driver verb xspec) is tied to the code by correspondence, '
-    'not proved equal to the marks form (mkKids/patternMarks) in Lean',
+    'the XPath reading of a match path is proved for the three strategies and unions (marks_are_xpath_matches_every_strategy: C05 '
+    'pattern_matches_eq_xp, pattern_matches_eq_xp_fragments, C17 single_eq_generic in pattern mode) under the static criterion PatternXp '
+    '(no position tests, no attribute axis, no leading `.`) on clean element trees (C05 NodeFor); outside it: streams match-real / match-xspec, oracle rref',
+    'the location form of the specification (xpForest/patternSel, driver verb xspec) is proved equal to the marks form (mkKids/patternMarks: '
+    'xpath_spec_eq_marks_spec) under the same criterion, and tied to the code by correspondence',
+    'once="true" in the tree specification: onceList (replace the first match in document order), proved equal to the stage for lawful matchers '
+    '(once_replaces_first_match) and driven by the verb `tree` against the code (stream match-spec)',
     'the forest parser of the driver verb `tree` (specification vs code) is unverified plumbing',
     'the push-style (automaton) reading of the generator pipeline for buffer="false" is validated by correspondence, not proved equal to Python generator semantics',
 ]
@@ -54,7 +57,8 @@ ASSUMPTIONS = [
     'bodies are literal markup plus select() calls; buffer="false" only with at most one select() (documented requirement)',
     'real-matcher class: documents with unprefixed names and attributes n, m; match paths without variables; the reference '
     'oracles (rref, match-xspec) use the structured sub-grammar (names/*, child, descendant::, //, [@a], [@a="v"], [not(@a)], '
-    'unions), where genshi\'s predicate values are XPath\'s (outside it the recorded C05 findings apply)',
+    'unions, a final attribute step), where genshi\'s predicate values are XPath\'s (outside it the recorded C05 findings apply); '
+    'the rref oracle skips unions with an attribute-final operand (known finding C12-union-attribute-operand), the correspondence keeps them',
     'repeat oracle: every rendering of one template object must equal the first one (whatever the absolute semantics of a '
     'positional first step, finding C17-pattern-first-step-position)',
 ]
@@ -190,7 +194,8 @@ def _ok_spath(sp):
     try:
         return (isinstance(sp, list) and len(sp) >= 1 and all(
             isinstance(st, list) and len(st) >= 1 and all(
-                isinstance(x, list) and len(x) == 3 and x[0] in ('child', 'desc', 'dos') and isinstance(x[1], str)
+                isinstance(x, list) and len(x) == 3 and isinstance(x[1], str)
+                and (x[0] in ('child', 'desc', 'dos') or (x[0] == 'attr' and x is st[-1] and len(st) > 1 and x[2] is None))
                 and (x[1] == '*' or _NAME.match(x[1]))
                 and (x[2] is None or (isinstance(x[2], list) and x[2][0] in ('has', 'eq', 'not') and x[2][1] in R.ANAMES
                                       and len(x[2]) == (3 if x[2][0] == 'eq' else 2)
@@ -486,6 +491,11 @@ def compare(cases, res, stream, verb='run'):
                 res.disagreements[-1]['case']['auto_reload'] = cases[i]['auto_reload']
 
 
+def union_with_attr_operand(case):
+    """some match path is a union one of whose location paths ends in an attribute step"""
+    return any(t.get('spath') and len(t['spath']) > 1 and any(st[-1][0] == 'attr' for st in t['spath']) for t in case['tmpls'])
+
+
 def compare_real(cases, res):
     """the real-matcher class: model (automaton + path model) vs real events, Lean XPath specification vs real
     events, and the Python reference oracle on the structured cases"""
@@ -527,6 +537,11 @@ def compare_real(cases, res):
             res.streams[stream] = res.streams.get(stream, 0) + 1
             if m != real:
                 res.disagreements.append({'stream': stream, 'case': case, 'model': repr(m)[:600], 'real': repr(real)[:600]})
+        if union_with_attr_operand(c):
+            # known finding C12-union-attribute-operand (the union dispatcher reports one operand per event; the same
+            # root as C05-union-attribute-and-owner): correspondence only, the oracle stays outside the defect class
+            res.count('rref:skipped:union-with-attribute-operand')
+            continue
         ref, fired = R.reference(c)
         if ref[0] == 'ok':
             res.count('oracle:rref')
